@@ -420,6 +420,10 @@ def check_oracle(dirname, oracles):
             output[pid] = proc_res.stats
             continue
         for program, oracle in proc_res.stats['programs'].items():
+            if pid in output:
+                # This program has already been reported (and its test case
+                # has been saved) because of its first file.
+                break
             if oracle and program in failed:
                 # Here the program should be compiled successfully. However,
                 # it's in the list of the error messages.
